@@ -48,16 +48,19 @@ func lockKeyOf(lv *lval) (parent string, last pathStep, ok bool) {
 	return sb.String(), lv.path[len(lv.path)-1], true
 }
 
-func fieldNameOf(p pathStep) (structName, field string) {
+func fieldNameOf(p pathStep) (pkg, structName, field string) {
 	st, ok := p.structT.Underlying().(*types.Struct)
 	if !ok {
-		return "", ""
+		return "", "", ""
 	}
 	name := ""
 	if n, ok := p.structT.(*types.Named); ok {
 		name = n.Obj().Name()
+		if n.Obj().Pkg() != nil {
+			pkg = shortPkg(n.Obj().Pkg().Path())
+		}
 	}
-	return name, st.Field(p.field).Name()
+	return pkg, name, st.Field(p.field).Name()
 }
 
 func isSyncLockMethod(fn *ssa.Function) (op string, ok bool) {
@@ -140,9 +143,10 @@ func (x *fx) noteGuardedLoad(i *ssa.UnOp) {
 	if !ok {
 		return
 	}
-	sn, fn := fieldNameOf(last)
+	pk, sn, fn := fieldNameOf(last)
 	for _, g := range x.e.P.Contracts.GuardedBys {
-		if g.Type == sn && g.Field == fn {
+		// the declaration speaks about the type of the package whose contract file it is in
+		if g.Pkg == pk && g.Type == sn && g.Field == fn {
 			if x.guarded == nil {
 				x.guarded = map[ssa.Value]*guardedVal{}
 			}
